@@ -78,7 +78,7 @@ func Harness_C09_frames() {
 	var lens [3]int
 	total := 0
 	for i := 0; i < k; i++ {
-		lens[i] = lattice[vx_choice("lenClass", 5)]
+		lens[i] = int(vx_concrete_u64(uint64(lattice[vx_choice("lenClass", 5)])))
 		total += lens[i]
 	}
 	ch := vx_bytesN("clienthello", total)
